@@ -19,9 +19,24 @@
                           closed witness <a xmlns:q="A"><b xmlns:p="A" xmlns:q="B"><p:a/></b></a>
                           (namesWritable = to_string does not fail with MissingPrefix; tied to the
                           implementation by the `scope writable` requests)
+    C15_recursive_form_inner   deduplicate_namespaces(node) for ANY node = the same rebuild of the subtree,
+                          started from an EMPTY name stack and tracker, put back at the node's place
+    C15_serialises_partial_inner   C15_serialises_partial for a call on ANY node
+    C15_keeps_undeclarations   no binding to the no-namespace id (xmlns="", xmlns:p="") is ever removed, node
+                          by node, any call node, given unique prefixes per element in the call's subtree
+                          (C15_keeps_undeclarations_unique_needed: closed witness without it)
+    C15_idem_partial      a second call removes nothing when, in the call's subtree, no prefix is ever
+                          re-bound to another namespace further down a path (noRebind; repeating the same
+                          declaration is allowed) and no attribute is in a namespace declared as default
+                          namespace on its element or above (noFlag); C15_idem_needs_noRebind /
+                          C15_idem_needs_noFlag: each guard alone does not suffice (closed witnesses)
 -/
 import XotModel.Lemmas.ScopeDedup
 import XotModel.Lemmas.ScopeKeepNames
+import XotModel.Lemmas.ScopeInner
+import XotModel.Lemmas.ScopeUndecl
+import XotModel.Lemmas.ScopeIdem
+import XotModel.Lemmas.ScopeIdemGuards
 
 namespace XotModel.Props
 open XotModel
@@ -113,6 +128,150 @@ theorem C15_serialises_partial (env : Env) (t t' : Tree)
     (hw : namesWritable env t [] = some true) : namesWritable env t' [] = some true :=
   namesWritable_dedup_root env t t' hd hg hw
 
+/-! ### Calls on an inner node -/
+
+/-- `deduplicate_namespaces(node)` for any node: the subtree at the node is rebuilt by the same
+    recursive function as for a root call — name stack and tracker start EMPTY at the node, no
+    declaration above it is looked at — and everything outside the subtree is untouched. -/
+theorem C15_recursive_form_inner (env : Env) (t : Tree) (path : Path) (sub : Tree)
+    (hs : t.at? path = some sub) :
+    deduplicateNamespaces env t path =
+      some (scopeModifyAt (fun s => (rbWalk env [] s []).2) t path) :=
+  deduplicateNamespaces_inner env t path sub hs
+
+/-- `C15_serialises_partial` for a call on ANY node of the tree: under `NoShadowing` of the whole
+    tree, every name `to_string(root)` could write before `deduplicate_namespaces(node)` it can
+    write afterwards.  (The call knows nothing about the declarations above `node`; it can only
+    remove a declaration whose namespace is bound by an ancestor INSIDE the subtree, and without
+    shadowing that binding still reaches the name.) -/
+theorem C15_serialises_partial_inner (env : Env) (t t' : Tree) (path : Path)
+    (hd : deduplicateNamespaces env t path = some t') (hg : NoShadowing t)
+    (hw : namesWritable env t [] = some true) : namesWritable env t' [] = some true :=
+  namesWritable_dedup_inner env t t' path hd hg hw
+
+/-! ### Undeclarations are never removed -/
+
+/-- For every tree and every call node: node by node (the nodes are the same before and after:
+    `C15_frame`, `C15_same_nodes`; `declsOf` lists the declarations of every non-namespace node in
+    raw document order), every binding to the no-namespace id — `xmlns=""`, and `xmlns:p=""`
+    which `Xot` accepts — that was there before is there afterwards.
+    Hypothesis: no element of the call's subtree declares a prefix twice (the removal loop goes by
+    prefix and deletes the FIRST namespace node with that key). -/
+theorem C15_keeps_undeclarations (env : Env) (t t' : Tree) (path : Path) (sub : Tree)
+    (hs : t.at? path = some sub) (hu : UniqueDeclsBelow sub)
+    (h : deduplicateNamespaces env t path = some t') : AllKeep (declsOf t') (declsOf t) :=
+  dedup_keeps_undeclarations env t t' path sub hs hu h
+
+/-- `AllKeep` read at the `i`-th node: each pair `(p, no-namespace)` declared there before is
+    declared there after. -/
+theorem C15_keeps_undeclarations_at (env : Env) (t t' : Tree) (path : Path) (sub : Tree)
+    (hs : t.at? path = some sub) (hu : UniqueDeclsBelow sub)
+    (h : deduplicateNamespaces env t path = some t') (i : Nat) (before after : List (Nat × Nat))
+    (hb : (declsOf t)[i]? = some before) (ha : (declsOf t')[i]? = some after) (p : Nat)
+    (hm : (p, Env.noNamespace) ∈ before) : (p, Env.noNamespace) ∈ after :=
+  (C15_keeps_undeclarations env t t' path sub hs hu h).get i after before ha hb _ hm rfl
+
+def c15UndeclWitness : Tree :=
+  .node (.element 0) [.node (.namespace 3 2) [],
+    .node (.element 0) [.node (.namespace 2 0) [], .node (.namespace 2 2) []]]
+
+/-- The hypothesis is needed: `<a xmlns:q="A"><b xmlns:p="" xmlns:p="A"/></a>` (a prefix declared
+    twice on `b`; not constructible through the namespace map of the API): `A` is to be removed
+    from `b`, the loop removes "the declaration of `p`", which is `xmlns:p=""`. -/
+theorem C15_keeps_undeclarations_unique_needed :
+    ¬ ∀ (env : Env) (t t' : Tree), deduplicateNamespaces env t [] = some t' →
+        AllKeep (declsOf t') (declsOf t) := by
+  intro h
+  have hd : (deduplicateNamespaces {} c15UndeclWitness []).map declsOf = some [[(3, 2)], [(2, 2)]] := by
+    decide
+  cases hx : deduplicateNamespaces {} c15UndeclWitness [] with
+  | none => simp [hx] at hd
+  | some t' =>
+    have hk := h {} c15UndeclWitness t' hx
+    simp only [hx, Option.map_some, Option.some.injEq] at hd
+    have := hk.get 1 [(2, 2)] [(2, 0), (2, 2)] (by rw [hd]; rfl) (by decide) (2, 0) (by simp) rfl
+    simp at this
+
+/-! ### Idempotence -/
+
+/-- A second call removes nothing — under two guards on the subtree the call is made on:
+    `noRebind []`: no element declares a prefix twice, and a prefix that is declared again further
+    down a path is bound to the same namespace there (so no removal can un-shadow a different
+    binding; the typical redundancy `xmlns:p="A"` repeated below `xmlns:p="A"` is allowed);
+    `noFlag env []`: no attribute name is in a namespace that is declared as the DEFAULT
+    namespace on the attribute's element or on an element above it (the DeduplicateTracker never
+    sets a flag, so no declaration owes its survival to a flag that a removal can strand).
+    Both are needed: `C15_idem_needs_noRebind`, `C15_idem_needs_noFlag`.  Exhaustive evaluation
+    of the model over 1 062 882 three-element trees (chains and forks, three prefixes incl. the
+    default, two namespaces, optional namespaced attribute per element): 55 068 are not
+    idempotent; 9 880 of those satisfy noFlag, 60 have no prefix declared twice on a path at all;
+    none of the 100 354 trees with both guards is among them. -/
+theorem C15_idem_partial (env : Env) (t t1 : Tree) (path : Path) (sub : Tree)
+    (hs : t.at? path = some sub) (hg : noRebind [] sub) (hf : noFlag env [] sub)
+    (h1 : deduplicateNamespaces env t path = some t1) :
+    deduplicateNamespaces env t1 path = some t1 :=
+  dedup_idem env t t1 path sub hs hg hf h1
+
+/-- The guards stated once for the whole tree serve every call node. -/
+theorem C15_idem_partial_tree (env : Env) (t t1 : Tree) (path : Path)
+    (hg : noRebind [] t) (hf : noFlag env [] t)
+    (h1 : deduplicateNamespaces env t path = some t1) :
+    deduplicateNamespaces env t1 path = some t1 := by
+  obtain ⟨sub, hs⟩ := deduplicateNamespaces_isSome env t t1 path h1
+  exact dedup_idem env t t1 path sub hs (noRebind_at path t sub _ hs hg)
+    (noFlag_at env path t sub _ hs hf) h1
+
+/-- `NoShadowing` (the guard of `C15_serialises_partial`) is a special case of `noRebind`. -/
+theorem C15_idem_partial_noShadowing (env : Env) (t t1 : Tree) (path : Path)
+    (hg : NoShadowing t) (hf : noFlag env [] t)
+    (h1 : deduplicateNamespaces env t path = some t1) :
+    deduplicateNamespaces env t1 path = some t1 :=
+  C15_idem_partial_tree env t t1 path
+    (noRebind_of_noShadow t [Env.xmlPrefix] [] (by simp) hg) hf h1
+
+/-- `noFlag` alone does not do: the witness of `C15_idem_false` has no attributes at all
+    (and re-binds `q` from `C` to `A`). -/
+theorem C15_idem_needs_noRebind :
+    ¬ ∀ (env : Env) (t t1 : Tree), noFlag env [] t →
+        deduplicateNamespaces env t [] = some t1 → deduplicateNamespaces env t1 [] = some t1 := by
+  intro h
+  have key : ((deduplicateNamespaces {} c15IdemWitness []).bind fun t1 =>
+      (deduplicateNamespaces {} t1 []).map declsOf) ≠
+      (deduplicateNamespaces {} c15IdemWitness []).map declsOf := by decide
+  apply key
+  have hf : noFlag {} [] c15IdemWitness := by
+    simp [c15IdemWitness, noFlag, noFlag.noFlagList, Tree.attrs, Tree.attributeNodes, Tree.kids,
+      Tree.value, Value.category]
+  cases hd : deduplicateNamespaces {} c15IdemWitness [] with
+  | none => rfl
+  | some t2 => simp [h {} c15IdemWitness t2 hf hd]
+
+def c15IdemWitness2 : Tree :=
+  .node (.element 0) [.node (.namespace 2 2) [],
+    .node (.element 0) [.node (.namespace 0 2) [],
+      .node (.element 0) [.node (.namespace 3 2) [], .node (.attribute 1 []) []]]]
+
+def c15IdemEnv2 : Env := { namespaces := [], prefixes := [], names := [(['a'], 0), (['x'], 2)] }
+
+/-- `noRebind` (even `noShadow`) alone does not do:
+    `<r xmlns:p="A"><a xmlns="A"><b xmlns:q="A" q:x=""/></a></r>`.
+    The first call keeps `xmlns:q` (the attribute flagged the entry of `xmlns="A"`) and removes
+    `xmlns="A"`; the second call finds nothing flagged and removes `xmlns:q`. -/
+theorem C15_idem_needs_noFlag :
+    ¬ ∀ (env : Env) (t t1 : Tree), noShadow [] t → noRebind [] t →
+        deduplicateNamespaces env t [] = some t1 → deduplicateNamespaces env t1 [] = some t1 := by
+  intro h
+  have key : ((deduplicateNamespaces c15IdemEnv2 c15IdemWitness2 []).bind fun t1 =>
+      (deduplicateNamespaces c15IdemEnv2 t1 []).map declsOf) ≠
+      (deduplicateNamespaces c15IdemEnv2 c15IdemWitness2 []).map declsOf := by decide
+  apply key
+  have hg : noShadow [] c15IdemWitness2 := by
+    simp [c15IdemWitness2, noShadow, noShadow.noShadowList, nsDecls_node, declsOfKids, Tree.value]
+  cases hd : deduplicateNamespaces c15IdemEnv2 c15IdemWitness2 [] with
+  | none => rfl
+  | some t2 =>
+    simp [h c15IdemEnv2 c15IdemWitness2 t2 hg (noRebind_of_noShadow _ [] [] (by simp) hg) hd]
+
 /-! ### Non-vacuity -/
 
 /-- `<a xmlns="A" xmlns:p="B"><b xmlns:q="A" q:x=""><c xmlns:r="B"/></b></a>` (a, b in A; x in A;
@@ -137,5 +296,51 @@ example : (deduplicateNamespaces c15PartialEnv c15PartialWitness []).map declsOf
 /-- `<a xmlns:p="A"><b xmlns:p="A"/></a>`: the redundant declaration on `b` goes, nothing else. -/
 example : (deduplicateNamespaces {} (.node (.element 0) [.node (.namespace 2 2) [],
       .node (.element 0) [.node (.namespace 2 2) []]]) []).map declsOf = some [[(2, 2)], []] := by decide
+
+/-- Inner call on `b` (path `[2]`) of `c15PartialWitness`: only `xmlns:r="B"`… stays (B is not
+    bound inside `b`'s subtree), and `xmlns:q` stays; the tree is still writable. -/
+example : (deduplicateNamespaces c15PartialEnv c15PartialWitness [2]).map declsOf =
+    some [[(0, 2), (2, 3)], [(3, 2)], [], [(4, 3)]] := by decide
+
+/-- `<a xmlns:p="A"><b><c xmlns:q="A"/><d xmlns=""/></b></a>`, call on `b` (path `[1]`): nothing
+    is known inside `b`, nothing goes; call on the root: `xmlns:q` goes, `xmlns=""` stays. -/
+def c15InnerWitness : Tree :=
+  .node (.element 0) [.node (.namespace 2 2) [],
+    .node (.element 0) [.node (.element 0) [.node (.namespace 3 2) []],
+      .node (.element 0) [.node (.namespace 0 0) []]]]
+
+example : (deduplicateNamespaces {} c15InnerWitness [1]).map declsOf =
+    some [[(2, 2)], [], [(3, 2)], [(0, 0)]] := by decide
+example : (deduplicateNamespaces {} c15InnerWitness []).map declsOf =
+    some [[(2, 2)], [], [], [(0, 0)]] := by decide
+example : UniqueDeclsBelow c15InnerWitness := uniqueDeclsB_sound _ (by decide)
+example : NoShadowing c15InnerWitness := by
+  simp [NoShadowing, c15InnerWitness, noShadow, noShadow.noShadowList, nsDecls_node, declsOfKids,
+    Tree.value, Env.xmlPrefix]
+example : noFlag {} [] c15InnerWitness := by
+  simp [c15InnerWitness, noFlag, noFlag.noFlagList, Tree.attrs, Tree.attributeNodes, Tree.kids,
+    Tree.value, Value.category]
+
+/-- The guards of `C15_idem_partial` with attributes present: `c15PartialWitness` has `q:x` in `A`
+    under `xmlns="A"` — flagged, so NOT `noFlag`; with the attribute in `B` instead it is. -/
+example : noFlag { namespaces := [], prefixes := [], names := [(['a'], 2), (['x'], 3), (['c'], 3)] } []
+    c15PartialWitness := by
+  simp [c15PartialWitness, noFlag, noFlag.noFlagList, Tree.attrs, Tree.attributeNodes, Tree.kids,
+    Tree.value, Value.category, Tree.getNamespace, nsDecls_node, declsOfKids, Env.emptyPrefix,
+    Env.nsOfName]
+
+/-- `<a xmlns:p="A"><b xmlns:p="A"><c xmlns:q="A"/></b></a>`: `p` is declared twice on a path (not
+    `NoShadowing`) but never re-bound: both guards of `C15_idem_partial` hold, the first call removes
+    two declarations, the second none. -/
+def c15RebindWitness : Tree :=
+  .node (.element 0) [.node (.namespace 2 2) [],
+    .node (.element 0) [.node (.namespace 2 2) [], .node (.element 0) [.node (.namespace 3 2) []]]]
+
+example : noRebind [] c15RebindWitness := by
+  simp [c15RebindWitness, noRebind, noRebind.noRebindList, nsDecls_node, declsOfKids, Tree.value]
+example : noFlag {} [] c15RebindWitness := by
+  simp [c15RebindWitness, noFlag, noFlag.noFlagList, Tree.attrs, Tree.attributeNodes, Tree.kids,
+    Tree.value, Value.category]
+example : (deduplicateNamespaces {} c15RebindWitness []).map declsOf = some [[(2, 2)], [], []] := by decide
 
 end XotModel.Props
